@@ -85,6 +85,8 @@ pub fn sources(case: &mut Case, cloneable: bool, full: bool) -> Vec<Src> {
         Src::Remove(OTHER, 0),
         Src::SwapRemove(OTHER, 0),
         Src::Drained(OTHER, 1),
+        Src::HandleUnchecked(OTHER),
+        Src::UserTyped(case.fresh_id()),
     ];
     if full {
         v.push(Src::Remove(OTHER, OTHER_LEN - 1));
@@ -95,6 +97,11 @@ pub fn sources(case: &mut Case, cloneable: bool, full: bool) -> Vec<Src> {
         for k in ALL_LAZY {
             v.push(Src::Lazy(k, OTHER, 1, 1));
         }
+        // through the `_unchecked` entry points, built with `LazyClone::new`, and of a user-implemented typed value
+        v.push(Src::Lazy(LazySrc::Ref, OTHER, 1, 11));
+        v.push(Src::Lazy(LazySrc::Pop, OTHER, 1, 12));
+        v.push(Src::Lazy(LazySrc::Remove, OTHER, 1, 21));
+        v.push(Src::UserLazy(case.fresh_id()));
         if full {
             for k in ALL_LAZY {
                 v.push(Src::Lazy(k, OTHER, 0, 2));
@@ -981,7 +988,7 @@ pub fn clone_ops(case: &mut Case, n: usize, full: bool) -> Vec<Vec<Op>> {
 pub fn retarget(op: &Op, to: usize) -> Option<Op> {
     let mut o = op.clone();
     let uses = |s: &Src| match s {
-        Src::Pop(w) | Src::Remove(w, _) | Src::SwapRemove(w, _) | Src::Drained(w, _) | Src::Lazy(_, w, _, _) => *w == to,
+        Src::Pop(w) | Src::HandleUnchecked(w) | Src::Remove(w, _) | Src::SwapRemove(w, _) | Src::Drained(w, _) | Src::Lazy(_, w, _, _) => *w == to,
         _ => false,
     };
     let sink_uses = |s: &Sink| matches!(s.fin, Fin::Push(w) | Fin::Insert(w, _) if w == to);
